@@ -408,9 +408,10 @@ def repo_test_traces(ctx: Ctx, files=QUICK_TEST_FILES, min_steps=150, recorded=N
         what = s["what"][r["i"]] if r["i"] < len(s["what"]) else "?"
         case = {"test": s["test"], "kind": s["kind"], "what": s["what"][: r["i"] + 1], "lines": s["lines"][: r["i"] + 1]}
         ctx.violation(f"RepoTests{r['clause']}:{what}", "RepoTests" + r["clause"], case, kind="repo-tests")
-    if p.returncode != 0 and not seen:
-        # the wrapping must be invisible to the tests: red tests without any rejected session cannot be told from
-        # interference by the plugin -> machinery, never a verdict
+    if p.returncode != 0 and not seen and not ctx.violations:
+        # the wrapping must be invisible to the tests: red tests without any rejected session (and without any
+        # violation from the check's own histories, which would explain them) cannot be told from interference by
+        # the plugin -> machinery, never a verdict
         raise tlc.MachineryError("the repository's tests fail under the recording plugin although no session was rejected:\n" + tail)
     for s in sessions[:: max(1, len(sessions) // 3)][:3]:
         ctx.sample({"repo_test": s["test"], "kind": s["kind"], "steps": s["what"][:10]})
